@@ -35,7 +35,7 @@ Shapes(c, N, sg) ==
        \cup (IF N # {} THEN {[tracks |-> TracksOf(N), sigs |-> sg, end |-> LastEnd(N), cap |-> FALSE, bars |-> FALSE],
                              [tracks |-> TracksOf(N), sigs |-> sg, end |-> LastEnd(N) + 10, cap |-> TRUE, bars |-> FALSE]} ELSE {})
 SigsFit(sg, e) == \A j \in DOMAIN sg : sg[j][1] < e
-NoteSetsFor == IF Which = "C02" /\ ~Thorough THEN {N \in NoteSetsT : Cardinality(N) <= 1} ELSE NoteSetsT
+NoteSetsFor == IF Which = "C02" THEN {N \in NoteSetsT : Cardinality(N) <= 1} ELSE NoteSetsT
 MC_PiecesOf(c) == LET all == UNION {UNION {Shapes(c, N, sg) : sg \in SigPlans} : N \in NoteSetsFor}
                   IN {pc \in all : SigsFit(pc.sigs, pc.end) /\ (Which = "C03" => pc.bars)}
 (* C03 also needs pieces of three bars with a change in the middle *)
@@ -52,7 +52,7 @@ Letters(c) == {Tok("rest", 6), Tok("rest", 24), Tok("bar", -1), Tok("tsg", 4), T
               \cup {NoteTok(IF c.fuseTrk THEN t ELSE -1, 60 + t, IF c.fuseVal THEN 6 ELSE -1, IF c.fuseVel THEN 127 ELSE -1) : t \in {0, 1}}
 RECURSIVE StreamsUpTo(_, _)
 StreamsUpTo(A, n) == IF n = 0 THEN {<<>>} ELSE LET S == StreamsUpTo(A, n - 1) IN S \cup {Append(q, a) : q \in S, a \in A}
-StreamLen == IF Thorough THEN 6 ELSE 5
+StreamLen == 5
 DummyPiece == [tracks |-> <<{}, {}>>, sigs |-> <<>>, end |-> 96, cap |-> TRUE, bars |-> TRUE]
 InitC19 == /\ cfg \in MC_Configs
            /\ piece = DummyPiece /\ cuts = {-1} /\ nc = 0
